@@ -272,7 +272,7 @@ ASSUME PrintT("META " \o ToJson([bkeys |-> BKeys, accts |-> Accts, denoms |-> De
 
 (* E2: print every generated transition (ACTION_CONSTRAINT; always TRUE).   *)
 Emit ==
-  \/ ~last'.ok /\ Cardinality(last'.failed) > FailCap /\ ~Has(last'.e, "always")
+  \/ ~last'.ok /\ Cardinality(last'.failed) > FailCap /\ ~Has(last'.e, "always") /\ TLCGet("level") % 5 # 0     \* rejected transitions that fail more than FailCap guards are emitted from every fifth BFS level only
   \/ PrintT("EDGE " \o ToJson([from |-> st, e |-> last'.e, ok |-> last'.ok, resp |-> last'.resp,
                                 failed |-> last'.failed, to |-> IF last'.ok THEN st' ELSE [same |-> TRUE]]))
 
